@@ -392,12 +392,15 @@ fn check_dec_seq(c: &DecSeq, info: &mut Info) -> Result<(), String> {
     Ok(())
 }
 
+crate::long_sub!(run_long_history, [15, 16]);
+
 pub fn def() -> PropDef {
     PropDef {
         id: "C04",
         rule: "byte strings of length 48/96/96/192 for the four formats: valid encodings of every point class (identity, subgroup, full-curve, each small prime order dividing the cofactor, order l*r, walks P+[k]G) and uniform / all-zero bytes, then 0..2 edits (force each of the 8 flag combinations, replace one 48-byte coordinate component by q+k, q-1-k, 2^381, 2^381-1, 0, small, uniform; +-delta; bit flip; x without a square root; x of another point; flip sort flag). Oracle: model decoder returning the accepted point or the first failing stage in the order form flag, infinity/sort flags, coordinate range, curve, subgroup; checked and unchecked variants; no panic; for every string the unchecked decoder accepts, the checked decoder applied to the crate's own re-encoding of that point (the EncodedPoint value, not a copy of its bytes) must give the verdict of the bytes. Non-trivial = input passes the form-flag stage; distinct = distinct cases",
         needs_pairing: false,
         subs: vec![
+            Box::new(crate::engine::EnumSub { name: "long-history", rule: super::longhist::RULE, run: run_long_history, replay: super::longhist::replay, exhaustive: false }),
             Box::new(Sub { name: "decoders", rule: "four decoders, checked and unchecked, vs model decoder (accepted point or first failing stage)", quick: 24_000, thorough: 250_000, strategy: || boxed(dec_case_strategy()), check: check_dec_any }),
             Box::new(Sub { name: "related-strings", rule: "a byte string followed back to back by 1..4 related strings (sort flag flipped, other flag combination, further edit, the same point in the other form, the same again), each compared with the model decoder", quick: 3_000, thorough: 80_000, strategy: || boxed(dec_seq_strategy()), check: check_dec_seq }),
             super::corpus_sub_decode(),
